@@ -9,7 +9,9 @@ A `Fixed` is a list of (column, the values it can take). `fixedQ db q` follows t
              `col is const` or `col in (consts)` are folded with `fixedAnd`; a conflict (an empty
              intersection) leaves no fixed. (`col <= ""` is NOT mirrored.) The terms are recognised
              as the parser leaves them: a constant expression is its value, `const is col` is
-             `col is const`, `not (a isnt b)` is `a is b`, `not not t` is `t`. Other
+             `col is const`, `not` over a comparison is the inverse comparison (so `not (a isnt b)`,
+             `not not (a is b)` are `a is b`; there is no other double negation), an `or` of `col is const` for one
+             column is `col in (consts)` (`foldOrToIn`). Other
              rewrites of the parser (folding `x and false`, …) are not mirrored. A where whose expression
              reads a column the source does not have (the constructor panics) has none here.
 * project    `projectFixed(src.Fixed(), cols)`; summarize `projectFixed(src.Fixed(), by)`
@@ -62,14 +64,38 @@ def colConst : Expr → Expr → Option (Col × Val)
   | a, .col c => (constOf a).map fun v => (c, v)
   | _, _ => none
 
-/-- the term fixes a column: `col is const`, `not (col isnt const)` (which the parser turns into
-`is`), `col in (consts)` -/
-def termFix : Expr → Option (Col × List Val)
-  | .cmp .is a b => (colConst a b).map fun cv => (cv.1, [cv.2])
-  | .not (.cmp .isnt a b) => (colConst a b).map fun cv => (cv.1, [cv.2])
-  | .not (.not t) => termFix t
-  | .inl (.col c) vs => some (c, vs)
-  | _ => none
+/-- the parser turns `not (a <cmp> b)` into the inverse comparison (`foldUnary`) and a one-element
+`in` into `is`: `cmpFix true t` — `t` is left as `col is const`; `cmpFix false t` — as
+`col isnt const` -/
+def cmpFix : Bool → Expr → Option (Col × Val)
+  | true, .cmp .is a b => colConst a b
+  | false, .cmp .isnt a b => colConst a b
+  | true, .inl (.col c) [v] => some (c, v)
+  | p, .not t => cmpFix (!p) t
+  | _, _ => none
+
+/-- `col is const` as the parser leaves it -/
+def isFix (t : Expr) : Option (Col × Val) := cmpFix true t
+
+/-- `foldOrToIn`: an `or` all of whose alternatives are `col is const` for the same column is
+turned into `col in (consts)` by the parser -/
+def orFix : Expr → Option (Col × List Val)
+  | .or a b =>
+    match orFix a, orFix b with
+    | some (c1, v1), some (c2, v2) => if c1 = c2 then some (c1, v1 ++ v2) else none
+    | _, _ => none
+  | e => (isFix e).map fun cv => (cv.1, [cv.2])
+
+/-- the term fixes a column: `col is const` (as the parser leaves it), `col in (consts)`, or an
+`or` the parser turns into an `in` -/
+def termFix (t : Expr) : Option (Col × List Val) :=
+  match isFix t with
+  | some (c, v) => some (c, [v])
+  | none =>
+    match t with
+    | .inl (.col c) vs => some (c, vs)
+    | .or a b => orFix (.or a b)
+    | _ => none
 
 /-- `addFixed` for one term -/
 def addFixed (fx : Fixed) (t : Expr) : Option Fixed :=
